@@ -186,8 +186,9 @@ def rp_spec(signature, xk, yk, basis=None):
     return res
 
 
-@rule("C05.rp-table", props=["C05", "C14"], min_instances=6, mutants=[
+@rule("C05.rp-table", props=["C05", "C14"], min_instances=10, mutants=[
     ("transposed index pair in the unhodge factor", ("codegen", "algebra.signs[key_pss - (pair[0] ^ pair[1]), pair[0] ^ pair[1]]", "algebra.signs[pair[0] ^ pair[1], key_pss - (pair[0] ^ pair[1])]")),
+    ("early exit when the grades add up to at most d", ("codegen", "    algebra = x.algebra\n    key_pss = len(algebra) - 1\n    keyout_func = lambda kx, ky: key_pss - (kx ^ ky)", "    algebra = x.algebra\n    if x.keys() and y.keys() and max(bin(k).count('1') for k in x.keys()) + max(bin(k).count('1') for k in y.keys()) <= algebra.d:\n        return {}\n    key_pss = len(algebra) - 1\n    keyout_func = lambda kx, ky: key_pss - (kx ^ ky)")),
     ("one hodge factor missing", ("codegen", "        algebra.signs[pair[1], key_pss - pair[1]] *\n", "")),
     ("outer factor transposed", ("codegen", "algebra.signs[key_pss - pair[0], key_pss - pair[1]] *", "algebra.signs[key_pss - pair[1], key_pss - pair[0]] *")),
 ])
@@ -201,6 +202,10 @@ def rp_table(ctx):
     reps["2DPGA-like[0,+,+] full"] = ([0, 1, 1], tuple(range(8)), tuple(range(8)))
     reps["4D[0,+,+,-] full-shuffled"] = ([0, 1, 1, -1], tuple((k * 7) % 16 for k in range(16)), tuple((k * 11 + 3) % 16 for k in range(16)))
     reps["2D[+,-] full"] = ([1, -1], (2, 0, 3, 1), (1, 3, 0, 2))
+    reps["3D vector & bivector (grades add up to d: scalar result)"] = ([1, 1, 1], (4, 1, 2), (6, 3, 5))
+    reps["3D pseudoscalar & scalar"] = ([0, 1, 1], (7,), (0,))
+    reps["4D bivector & bivector (scalar result)"] = ([0, 1, 1, -1], (3, 12, 5, 10, 6, 9), (9, 6, 10, 5, 12, 3))
+    reps["3D plane & point & line, mixed"] = ([0, 1, 1], (1, 2, 4, 7), (3, 5, 6, 0))
     if ctx.tier == "thorough":
         reps["5D[+,+,-,0,+] sparse"] = ([1, 1, -1, 0, 1], (31, 3, 12, 17, 0, 6, 24, 21, 30, 15), (5, 10, 31, 16, 1, 14, 27, 28, 7))
     for name, (sig, xk, yk) in reps.items():
